@@ -61,7 +61,30 @@ class P1Path:
 
 
 class P1Model:
+    _CACHE = {}
+
+    def __new__(cls, src):
+        """one model per source set (the checks and the clauses they import from each other all read the same model)"""
+        ent = cls._CACHE.get(id(src))
+        if ent is not None and ent[0] is src:
+            if isinstance(ent[1], Exception):
+                raise ent[1]
+            return ent[1]
+        obj = super().__new__(cls)
+        try:
+            obj._build(src)
+        except Exception as ex:
+            from sa.report import ModelViolation, Undecided
+            if isinstance(ex, (ModelViolation, Undecided)):
+                cls._CACHE[id(src)] = (src, ex)
+            raise
+        cls._CACHE[id(src)] = (src, obj)
+        return obj
+
     def __init__(self, src):
+        pass
+
+    def _build(self, src):
         self.src = src
         self.M = Model(src)
         M = self.M
@@ -114,6 +137,10 @@ class P1Model:
             raise Undecided(f"ModeDReader.read uses a statement outside the analysed subset: {ex}")
         raws = [a for a, v in c.field_inits.items() if isinstance(v, ast.Call) and isinstance(v.func, ast.Name) and v.func.id == "bytearray" and a != self.buffer]
         self.raw = raws[0] if len(raws) == 1 else None
+        for nm_, l1_, l2_ in self.M.shared_mutable_state(READER):
+            from sa.report import ModelViolation
+            raise ModelViolation("dlde.ModeDReader", f"shared-class-state:{nm_}", f"`{nm_}` is a mutable container created once in the class body and modified in place through self.{nm_} "
+                                 f"(line {l2_}) without ever being bound per instance: all reader objects share it, so what one reader has received changes what another one does", self.src.file(MOD), l1_)
         if not (self.hunt and self.buffer and self.raw):
             raise Undecided(f"cannot bind P1 reader roles: hunt={self.hunt} buffer={self.buffer} lines={self.raw}")
         self.buffer_cls = c.field_types.get(self.buffer)
@@ -338,6 +365,10 @@ ROWS = [
 ]
 
 
+from sa.hdlcref import _memo_on_model  # noqa: E402
+
+
+@_memo_on_model
 def conformance(m: P1Model):
     res = []
     for rid, desc, alts, exp in ROWS:
@@ -357,6 +388,7 @@ def conformance(m: P1Model):
     return res
 
 
+@_memo_on_model
 def exit_and_guard(m: P1Model):
     """Exit rows (no complete line): consumed input released, guard measures unconsumed bytes + collected lines, trip path clears both and hunts."""
     res = []
@@ -474,6 +506,7 @@ def _len_subtracts_pos(m):
     return v.ok is True and (v.info or {}).get("len") == "unconsumed"
 
 
+@_memo_on_model
 def skeleton(m: P1Model):
     res = []
     fn = m.read_fn
@@ -669,6 +702,7 @@ def buffer_usage(m: P1Model):
     return use
 
 
+@_memo_on_model
 def buffer_contracts(m: P1Model):
     """E-SEQ: every buffer method the P1 reader uses satisfies the contract of its role (abstract evaluation, see sa/seqbuf.py)"""
     res = []
